@@ -208,7 +208,7 @@ class PoolWorld(HistoryWorld):
                     'shuffle': rng.getrandbits(16), 'entry': rng.choice(['one', 'list']), 'caller': caller}
         if r < 0.86:
             return {'op': 'slice_to_cell', 'c': self._ref(rng), 'skip_bits': rng.choice([0, 0, 1, 7, 8, rng.randint(0, 64)]), 'skip_refs': rng.choice([0, 0, 1, 2]), 'after_bits': rng.choice([0, 0, 1, 8, 33]), 'after_refs': rng.choice([0, 0, 1]), 'caller': caller}
-        return {'op': 'via_builder', 'c': self._ref(rng), 'caller': caller}
+        return {'op': 'via_builder', 'c': self._ref(rng), 'more_bits': _rbits(rng, rng.choice([0, 0, 1, 8])), 'more_ref': self._ref(rng) if rng.random() < 0.4 else None, 'caller': caller}
 
     def _gen_c01(self, st, rng, cfg):
         if cfg.get('deep'):
@@ -520,10 +520,31 @@ class PoolWorld(HistoryWorld):
         e = st.entry(k, op['c'])
         if e is None or e['twin'] is None or e['twin'].special:
             return None
-        ok, c = call(lambda: e['lib'].to_builder().end_cell())
+        t = e['twin']
+        twin = t
+        more_bits = op.get('more_bits') or ''
+        e2 = st.entry(k, op['more_ref']) if op.get('more_ref') else None
+        if e2 is not None and e2['twin'] is None:
+            e2 = None
+        if more_bits or e2:
+            # the derived builder keeps being written to before it is finished
+            try:
+                twin = RCell(t.bits + more_bits, list(t.refs) + ([e2['twin']] if e2 else []))
+            except RCellError:
+                twin, more_bits, e2 = t, '', None
+        def mk():
+            b = e['lib'].to_builder()
+            if more_bits:
+                b.store_bits(more_bits)
+            if e2:
+                b.store_ref(e2['lib'])
+            return b.end_cell()
+        ok, c = call(mk)
         if not ok:
             return 'raised:' + type(c).__name__
-        self._register(st, st.callers[k].cells, c, e['twin'], ctx, 'via_builder')
+        if more_bits or e2:
+            ctx.probe('derived-builder-written-to')
+        self._register(st, st.callers[k].cells, c, twin, ctx, 'via_builder')
         return c.hash.hex()
 
     # --- C01 oracle ---
